@@ -7,23 +7,23 @@ HERE = os.path.dirname(os.path.dirname(os.path.abspath(__file__)))
 CHECKS = {
     "C01": dict(engine="E1-orbit", design="§2 E1, §3 C01",
         technique="explicit-state orbit closure (BFS over relabelling actions to a fixpoint) of all labelled coloured graphs up to a size bound, real pipeline executed on every state",
-        text="Exhaustive: every numbering of every molecule with n<=3 over 6 colours, n=4 over 4, n=5 over 3, n=6 uncoloured/one label (thorough: n=5 over 6 colours, n=6 two colours/two labels, n=7 uncoloured/one label), plus bond listing/orientation deviations, must give byte-identical strings inside each S_n orbit. Coverage statement, not a sample; sizes above the bound are reached only near named seeds.",
+        text="Exhaustive: every numbering of every molecule with n<=3 over 7 colours (incl. isotope+radical on one atom), n=4 over 5, n=5 over 3, n=6 uncoloured/one label (thorough: n=4 over 7, n=5 over 6, n=6 two colours/two labels, n=7 uncoloured/one label) must give byte-identical strings inside each S_n orbit; plus bond listing/orientation and atom-line-order deviations, graph-level descriptions (re-canonicalization, nx.relabel_nodes, reversed insertion, stale partitions, in-place edit from a neighbour molecule), a zoo of symmetric/WL-hard/multi-component seeds with every label placement under all transpositions, corpus molecules, and all colourings of chains/rings up to 8 atoms. Coverage statement, not a sample; sizes above the bound are reached only near named seeds.",
         note="Trusted: my orbit closure (adjacent transpositions generate S_n) and my V3000 renderer; CPython/networkx/igraph as installed."),
     "C02": dict(engine="E1-orbit", design="§2 E1, §3 C02",
         technique="explicit-state orbit enumeration; injectivity of string over all isomorphism classes in the bound",
-        text="All pairs of isomorphism classes (orbit roots of my own closure, no library isomorphism test) inside the E1 bounds must have different strings.",
+        text="All pairs of isomorphism classes (orbit roots of my own closure, no library isomorphism test) inside the E1 bounds must have different strings; across label placements of each zoo seed equal strings <=> isomorphic (own search); no string shared between seeds or between decorated chains; every ordered pair of WL-equivalent non-isomorphic molecules canonicalized in sequence keeps its own string.",
         note="Trusted: orbit closure as isomorphism oracle below the bound."),
     "C04": dict(engine="E1-orbit", design="§2 E1, §3 C04",
         technique="explicit-state orbit closure; canonical labelled graph signature compared on every state of each orbit",
-        text="For every state of every S_n orbit in the E1 bounds the canonicalized graph (node -> element, mass, rad, class; edge set) is identical.",
+        text="For every state of every S_n orbit in the E1 bounds, for the graph-level derived descriptions, zoo seeds, corpus molecules and decorated chains the canonicalized graph (node -> element, mass, rad, class; edge set) is identical.",
         note="Trusted: orbit closure, renderer."),
     "C12": dict(engine="E1-orbit", design="§2 E1, §3 C12",
         technique="explicit-state enumeration of labelled graphs with tracer attributes + exhaustive call histories of length<=3 on retained objects",
-        text="Every state carries unique coordinates, charges and bond types; the renaming must be a bijection onto 0..n-1 carrying all attributes/bonds; argument snapshots unchanged; all 39 histories of canonicalize/serialize calls per orbit root agree.",
+        text="Every state carries unique tracer coordinates, charges and bond types; the renaming must be a bijection onto 0..n-1 carrying every input attribute and bond (also for relabelled / offset-labelled / reordered inputs); argument snapshots unchanged; results not aliased; all 39 histories of canonicalize/serialize calls per orbit root, a second drawing of the same skeleton and an in-place edit between calls agree with fresh computations.",
         note="Trusted: deep snapshot of networkx graph internals (nodes, adjacency, graph attrs)."),
     "C13": dict(engine="E1-orbit", design="§2 E1, §3 C13",
         technique="explicit-state orbit closure; class vectors transported through the known relabelling; brute-force automorphism groups on orbit roots",
-        text="On every state: classes are label independent (via the permutation my BFS knows), monochromatic and equitable (own refinement round); on every root every automorphism (filtering n! permutations) preserves classes.",
+        text="On every state, derived description, zoo/corpus seed and decorated chain: classes are label independent (via the permutation my BFS knows), monochromatic and equitable (own refinement round); on every orbit root every automorphism (filtering n! permutations) preserves classes.",
         note="Trusted: own refinement round and automorphism filter."),
     "C03": dict(engine="E1-orbit+E3-ref", design="§2 E1/E3, §3 C03",
         technique="explicit-state orbit enumeration; parse of every emitted string looked up in the orbit table; own isomorphism search for size/formula families",
@@ -59,7 +59,7 @@ CHECKS = {
         note="Trusted: reference reader; respelling generator."),
     "C14": dict(engine="E5-environment", design="§2 E5, §3 C14",
         technique="fresh-interpreter enumeration of hash seeds; explicit-state BFS over call histories to a fixpoint of the canonical module state; stateless exploration of thread schedules with iterative context bounding under a cooperative scheduler (sys.monitoring)",
-        text="241-item workload identical under 16 (thorough 256+8 random) hash seeds; BFS over 8 (thorough 14) public calls incl. failing parses reaches a fixpoint of the module state (128 states quick) with every transition's result equal to a fresh process; all schedules with <=1 preemption (thorough: <=2 on two short two-thread harnesses, three more harnesses incl. 3 threads at <=1) at line granularity give the sequential results and leave a module state on which a probe workload still agrees.",
+        text="250-item workload identical under 16 (thorough 256+8 random) hash seeds; BFS over 23 public calls (failing parses, rejected molfiles, reads whose results are scribbled on, calls on a retained graph object) to a fixpoint of the canonical module state (128 + 24 states) with every transition"s result equal to a fresh process, plus the unmerged history tree; all schedules with <=1 preemption on 8 two-thread harnesses (incl. one starting from freshly imported modules) and <=2 preemptions on 3 short harnesses (thorough: 2 more at bound 2, 3 threads at bound 1) at line granularity give the sequential results, terminate, leave the interpreter settings untouched and a module state on which a probe workload still agrees.",
         note="Line-granularity interleavings of instrumented code (all tucan functions + ANTLR lexer cache functions); GIL; private equal-valued inputs per thread."),
     "C15": dict(engine="E4-sizes", design="§2 E4, §3 C15",
         technique="exhaustive size ladder (every n up to N_small for 13 families) plus large sizes chosen from the measured frame-depth curve",
